@@ -252,30 +252,62 @@ impl Property for C20 {
                 inputs.push(("fzn".into(), text.to_string(), flags.iter().map(|x| x.to_string()).collect()));
             }
         }
+        // search annotations that mention a variable more than once: literally, through an alias,
+        // through constants, and nested in seq_search (containers that remove the duplicates must
+        // not decide the order)
+        let decls: String = (1..=8).map(|i| format!("var 0..2: x{i} :: output_var;\n")).collect::<String>()
+            + "var 0..2: y :: output_var = x3;\nvar bool: p :: output_var;\nvar bool: q :: output_var;\nvar bool: r :: output_var;\nvar bool: s :: output_var = q;\n"
+            + "constraint int_lin_le([-1,-1,-1,-1,-1,-1,-1,-1],[x1,x2,x3,x4,x5,x6,x7,x8],-1);\nconstraint int_lin_le([1,1,1,1,1,1,1,1],[x1,x2,x3,x4,x5,x6,x7,x8],2);\nconstraint bool_clause([p,q,r],[]);\n";
+        let anns = [
+            "int_search([x1,x2,x3,x4,x5,x6,x7,x8,x1], input_order, indomain_min, complete)",
+            "int_search([x8,x7,x6,x5,x4,x3,x2,x1,y,x8,x7], input_order, indomain_max, complete)",
+            "int_search([x1,x2,x3,x4,x5,x6,x7,x8,y], first_fail, indomain_min, complete)",
+            "int_search([x2,x2,x1,x4,x3,x6,x5,x8,x7], smallest, indomain_split, complete)",
+            "seq_search([bool_search([p,q,r,s,p], input_order, indomain_max, complete), int_search([x5,x6,x7,x8,x1,x2,x3,x4,x5,1], input_order, indomain_min, complete)])",
+            "bool_search([r,true,q,p,false,r,s], input_order, indomain_min, complete)",
+        ];
+        for ann in anns {
+            for (goal, flags) in [("satisfy", vec![]), ("satisfy", vec!["-a"]), ("maximize x4", vec![])] {
+                let text = format!("{decls}solve :: {ann} {goal};\n");
+                inputs.push(("fzn".into(), text, flags.iter().map(|x| x.to_string()).collect()));
+            }
+        }
         for (ext, text, flags) in &inputs {
             for seed in ["1", "42"] {
                 let my = idx;
                 idx += 1;
                 let desc = || format!("cli: {ext} seed {seed} flags {flags:?} :: {}", text.replace('\n', " / "));
                 ctl.case(my, &desc, &mut |cx| {
+                    // (a run cut off by the time limit says nothing about reproducibility: retried
+                    // once with a long limit, then counted and left out)
                     let mut outs = vec![];
-                    for run in 0..2 {
-                        let path = format!("{dir}/c20_{my}_{run}.{ext}");
-                        let proof = format!("{dir}/c20_{my}_{run}.proof");
-                        std::fs::write(&path, text).expect("write input");
-                        let mut args: Vec<String> = vec![path.clone(), "-s".into(), "-r".into(), seed.into()];
-                        args.extend(flags.iter().cloned());
-                        if ext != "wcnf" {
-                            args.extend(["--proof-path".to_string(), proof.clone(), "--proof-type".to_string(), "full".to_string()]);
+                    for limit in [5u64, 12] {
+                        outs.clear();
+                        for run in 0..2 {
+                            let path = format!("{dir}/c20_{my}_{run}.{ext}");
+                            let proof = format!("{dir}/c20_{my}_{run}.proof");
+                            std::fs::write(&path, text).expect("write input");
+                            let mut args: Vec<String> = vec![path.clone(), "-s".into(), "-r".into(), seed.into()];
+                            args.extend(flags.iter().cloned());
+                            if ext != "wcnf" {
+                                args.extend(["--proof-path".to_string(), proof.clone(), "--proof-type".to_string(), "full".to_string()]);
+                            }
+                            let a: Vec<&str> = args.iter().map(|x| x.as_str()).collect();
+                            let o = run_cli(&a, limit).expect("run cli");
+                            let p = std::fs::read(&proof).unwrap_or_default();
+                            let l = std::fs::read(format!("{dir}/c20_{my}_{run}.lits")).unwrap_or_default();
+                            let _ = std::fs::remove_file(&path);
+                            let _ = std::fs::remove_file(&proof);
+                            let _ = std::fs::remove_file(format!("{dir}/c20_{my}_{run}.lits"));
+                            outs.push((o.status, normalise(&o.stdout), p, l));
                         }
-                        let a: Vec<&str> = args.iter().map(|x| x.as_str()).collect();
-                        let o = run_cli(&a, 5).expect("run cli");
-                        let p = std::fs::read(&proof).unwrap_or_default();
-                        let l = std::fs::read(format!("{dir}/c20_{my}_{run}.lits")).unwrap_or_default();
-                        let _ = std::fs::remove_file(&path);
-                        let _ = std::fs::remove_file(&proof);
-                        let _ = std::fs::remove_file(format!("{dir}/c20_{my}_{run}.lits"));
-                        outs.push((o.status, normalise(&o.stdout), p, l));
+                        if outs.iter().all(|o| o.0 != Some(124)) {
+                            break;
+                        }
+                    }
+                    if outs.iter().any(|o| o.0 == Some(124)) {
+                        cx.acc.count("cli_runs_cut_off_by_the_time_limit", 1);
+                        return;
                     }
                     cx.nontrivial = outs[0].1.lines().count() > 2;
                     if outs[0].0 != outs[1].0 || outs[0].1 != outs[1].1 {
